@@ -27,6 +27,9 @@ class Scalar (K : Type) where
   atan2 : K → K → K  -- `y.atan2(x)`
   powf : K → K → K
   ln : K → K
+  log2 : K → K
+  /-- `a.mul_add(b, c)`: fused multiply-add (one rounding) -/
+  fma : K → K → K → K
   hypot : K → K → K
   copysign : K → K → K
   /-- `x.is_finite()` where `x` came out of `+ - *` only -/
@@ -77,8 +80,8 @@ def spowi (x : K) : Nat → K
   | 0 => (1 : K)
   | 1 => x
   | (n+1) => spowi x n * x
-/-- `a.mul_add(b, c)`; modelled unfused (the crate only uses it where fusing is not observable in ℝ). -/
-@[inline] def smulAdd (a b c : K) : K := a * b + c
+/-- `a.mul_add(b, c)` -/
+@[inline] def smulAdd (a b c : K) : K := Scalar.fma a b c
 @[inline] def sgt (a b : K) : Bool := b <. a
 @[inline] def sge (a b : K) : Bool := b <=. a
 @[inline] def sne (a b : K) : Bool := !(a ==. b)
@@ -123,6 +126,8 @@ instance : Scalar Rat where
   atan2 _ _ := 0
   powf x _ := x
   ln _ := 0
+  log2 _ := 0
+  fma a b c := a * b + c
   hypot x y := ratSqrt (x * x + y * y)
   copysign a b := if b < 0 then -(ratAbs a) else ratAbs a
   fin _ := true
